@@ -4,6 +4,7 @@ from ..term import Terms, show, alts, is_call, walk
 from ..guards import guards, strip_not
 from ..rules_e1 import run_e1, by_names
 from ..rules_shape import floor_a
+from ..rules_dep import run_dep
 
 AT = "tz::ambiguous::AmbiguousTimestamp"
 AZ = "tz::ambiguous::AmbiguousZoned"
@@ -62,6 +63,7 @@ def enum_dispatch(prog, f, adt):
 
 
 def run(ctx, rep):
+    run_dep(ctx, rep, "C04")
     prog = ctx.prog("Q")
     rep.notes.append("Does not decide that the precomputed wall-clock table agrees with the instant->civil mapping of every zone.")
     strategy_table(rep, prog)
